@@ -4,7 +4,8 @@ import sockgen as G
 
 RULE = ("families sock and srv: pairs/triples of concatenated requests (valid or not) x segmentations x handler behaviours "
         "{respond+close in headersParsed, respond later, never respond} x API calls after close x late transport events "
-        "(segments, acks, peer FIN, disconnect); non-trivial = distinct case")
+        "(segments, acks, peer FIN, disconnect); family socknet: complete responses followed by late calls over a REAL loopback connection "
+        "(what the client receives); non-trivial = distinct case")
 ASSUMPTIONS = ["a closed QTcpSocket refuses writes and flushes pending bytes before FIN (Qt)"]
 TRUSTED = ["SimTcp stands in for the kernel TCP stack"]
 
@@ -56,3 +57,24 @@ def cases(tier, seed, ctx=None):
                     ops.append(G.PeerDrop)
             yield ("sock", [pol, ops, env, [19]], "sock-" + name)
             yield ("srv", [[[], [], [], rng.below(3), 0], [o for o in ops if o[0] != 10], env + [[]], [19]], "srv-" + name)
+    # the same over a REAL loopback connection: what the client receives.  Complete responses followed, inside the same
+    # notification, by every kind of late call
+    late_sets = [[], [G.WriteError(500)], [G.Write(b"late")], [G.WriteHeaders], [G.Close], [G.WriteRedirect(b"/x")], [G.WriteError(404), G.Close],
+                 [G.SetHeader(b"L", b"1"), G.Write(b"z")], [G.ReadAll, G.WriteError(503)]]
+    first = [("write-close", [G.SetHeader(b"Content-Length", b"2"), G.Write(b"ok"), G.Close]), ("error", [G.WriteError(404)]),
+             ("redirect", [G.WriteRedirect(b"/there")]), ("big", [G.SetHeader(b"Content-Length", b"70000"), G.Write(b"x" * 70000), G.Close])]
+    nn = 40 if tier == "quick" else 400
+    for j in range(nn):
+        body = rng.bytes(rng.range(0, 5))
+        r = G.valid_request(rng, body_len=len(body))
+        ver2, tab2 = G.oracle(ctx, [r["raw"]])
+        env2 = G.env_for(ver2, tab2, [r["raw"]])
+        name, resp = first[j % len(first)]
+        late = late_sets[(j // len(first)) % len(late_sets)]
+        stream = r["head"] + b"\r\n\r\n" + body
+        where = rng.below(3)
+        pol = [resp + late, [], []] if where == 0 else ([resp, late, late] if where == 1 else [resp, [], []])
+        ops = [G.Construct] + [G.Feed(s) for s in rng.partition(stream, 4)] + [G.Turn]
+        if where == 2:
+            ops = ops[:-1] + [G.App(a) for a in late] + [G.Turn]
+        yield ("socknet", [pol, ops, env2, [19, 1]], "net-" + name)
